@@ -326,6 +326,24 @@ func (eapAkaPrime *EapAkaPrime) Unmarshal(rawData []byte) error {
 					return errors.Wrapf(err, "EAP-AKA' Unmarshal(): read %s attribute/padding failed", attr.attrType)
 				}
 			}
+		case AT_CHECKCODE:
+			if attr.length == 0 {
+				return errors.Errorf("EAP-AKA' Unmarshal(): %s attribute length must not be 0", attr.attrType)
+			}
+
+			// Reserved bytes are ignored on reception
+			reserved := make([]byte, EapAkaAttrReservedLen)
+			_, err = io.ReadFull(bufReader, reserved)
+			if err != nil {
+				return errors.Wrapf(err, "EAP-AKA' Unmarshal(): read %s attribute/reserved failed", attr.attrType)
+			}
+
+			valLen := 4*int(attr.length) - EapAkaAttrTypeLen - EapAkaAttrLengthLen - EapAkaAttrReservedLen
+			attr.value = make([]byte, valLen)
+			_, err = io.ReadFull(bufReader, attr.value)
+			if err != nil {
+				return errors.Wrapf(err, "EAP-AKA' Unmarshal(): read %s attribute/value failed", attr.attrType)
+			}
 		case AT_KDF:
 			valLen := 4*attr.length - EapAkaAttrTypeLen - EapAkaAttrLengthLen
 			attr.value = make([]byte, valLen)
